@@ -51,10 +51,12 @@ def cases(tier, seed):
                 for sw in SWITCHES:
                     k += 1
                     kinds = ["np"]
-                    if (k % 16 == 0) or tier == "thorough" and k % 4 == 0:
+                    if (k % 7 == 0) or tier == "thorough" and k % 3 == 0:
                         kinds.append("dask")
                     for kind in kinds:
                         out.append(dict(prior=pi, data=dname, rel=list(rel), sw=list(sw), kind=kind, start="prior", seed=seed, tier=tier))
+                    if k % 5 == 0 or tier == "thorough":
+                        out.append(dict(prior=pi, data=dname, rel=list(rel), sw=list(sw), kind="np", start="prior", route="set_params", seed=seed, tier=tier))
                     if k % 3 == 0 or tier == "thorough":
                         # non-initial starting state: the machine's parameters were moved away from the prior before fit
                         out.append(dict(prior=pi, data=dname, rel=list(rel), sw=list(sw), kind="np", start="moved", seed=seed, tier=tier))
@@ -94,8 +96,14 @@ def run_case(case):
     snapshot = [a.copy() for a in prior]
 
     def fit(k):
-        m = GMMMachine(len(pr["w"]), trainer="map", ubm=ubm, update_means=bool(sw[0]), update_variances=bool(sw[1]), update_weights=bool(sw[2]),
-                       max_fitting_steps=k, convergence_threshold=None, map_relevance_factor=relevance, map_alpha=alpha)
+        if case.get("route") == "set_params":
+            # same configuration reached through the estimator's public parameter interface after construction
+            m = GMMMachine(len(pr["w"]), ubm=ubm)
+            m.set_params(trainer="map", update_means=bool(sw[0]), update_variances=bool(sw[1]), update_weights=bool(sw[2]),
+                         max_fitting_steps=k, convergence_threshold=None, map_relevance_factor=relevance, map_alpha=alpha)
+        else:
+            m = GMMMachine(len(pr["w"]), trainer="map", ubm=ubm, update_means=bool(sw[0]), update_variances=bool(sw[1]), update_weights=bool(sw[2]),
+                           max_fitting_steps=k, convergence_threshold=None, map_relevance_factor=relevance, map_alpha=alpha)
         if case.get("start") == "moved":
             m.means = start[1].copy()
             m.variances = start[2].copy()
@@ -104,7 +112,8 @@ def run_case(case):
         else:
             import dask.array as da
 
-            m.fit(da.from_array(X.copy(), chunks=((1, len(X) - 1) if len(X) > 1 else (1,), (D,))))
+            rows = tuple([1] * len(X)) if case["prior"] % 2 else ((1, len(X) - 1) if len(X) > 1 else (1,))
+            m.fit(da.from_array(X.copy(), chunks=(rows, (D,))))
         c.transitions += 1
         return m
 
@@ -180,5 +189,5 @@ def run_case(case):
     after = _params(ubm)
     c.check(all(np.array_equal(a, b) for a, b in zip(after, snapshot)), "prior_intact", "MAP training modified its prior", tags0)
     c.traces = c.transitions
-    sig = "%d|%s|%r|%s|%s|%s" % (case["prior"], case["data"], case["rel"], tags0["sw"], case["kind"], case.get("start"))
+    sig = "%d|%s|%r|%s|%s|%s|%s" % (case["prior"], case["data"], case["rel"], tags0["sw"], case["kind"], case.get("start"), case.get("route"))
     return c.result(nontrivial=changed, sig=sig)
